@@ -638,6 +638,7 @@ fn gen_env_bytes(rng: &mut Rng, a: &ArgSpec, faulty: bool) -> B {
             3 => B(vec![b'3', 0xff]),
             _ => B::s(*rng.pick(&["0", "3", "255"])),
         },
+        _ if matches!(a.parser, ValParser::Os | ValParser::Path) && (k == 5 || k == 6 || (!faulty && rng.chance(1, 4))) => B(vec![b'v', 0xff, b'x']),
         _ => match k {
             0 => B::s(""),
             1 => B(vec![b'v', 0xff, b'x']),
@@ -716,7 +717,25 @@ fn gen_level(rng: &mut Rng, n: &mut usize, shorts: &mut Vec<char>, prefix: &str,
         if let (Some(r), Some(t)) = (rng.pick_opt(&referents).cloned(), rng.pick_opt(&targets).copied()) {
             if c.args[t].id != r {
                 let dv = gen_c06_value(rng, &c.args[t], 0);
-                let eq = if rng.coin() { Some("v1".to_string()) } else { None };
+                // (`v\u{fffd}x` is what a lossy conversion makes of the non-UTF-8 value `v\xffx`: not equal to it)
+                let eq = match rng.below(5) {
+                    0 | 1 => Some("v1".to_string()),
+                    2 => Some("v\u{fffd}x".to_string()),
+                    _ => None,
+                };
+                if eq.as_deref() == Some("v\u{fffd}x") {
+                    // the referent can then really hold the non-UTF-8 look-alike: an OS-string argument with an
+                    // environment variable
+                    if let Some(ra) = c.args.iter_mut().find(|a| a.id == r) {
+                        if !matches!(ra.parser, ValParser::Possible(_)) && ra.action.takes_values() {
+                            ra.parser = ValParser::Os;
+                            ra.default_missing.clear();
+                            if ra.env.is_none() {
+                                ra.env = Some(format!("{prefix}R{}", ra.id));
+                            }
+                        }
+                    }
+                }
                 c.args[t].default_ifs.push((r, eq, if rng.chance(1, 5) { None } else { Some(dv) }));
             }
         }
